@@ -404,7 +404,7 @@ def run(pid, tier, seed):
         if t0.crashed:
             at = len(t0)
             rep.violation("sanitizer build: the library crashed / a sanitizer fired at %r: %s" % (lines[at][:80] if at < len(lines) else "?", t0.crashed[-400:]),
-                          dict(ctx, stderr=t0.stderr[-2000:]), signature={"symptom": "sanitizer", "battery": kind, "op": (lines[at].split()[0] if at < len(lines) else "?")})
+                          dict(ctx, stderr=t0.stderr[-2000:]), signature={"symptom": "sanitizer", "battery": kind, "op": (lines[at].split()[0] if at < len(lines) else "?"), "cause": core.crash_cause(t0.stderr)})
             continue
         ev.stat("sanitizer-clean-transcripts")
         outs = res["plain"]
